@@ -421,4 +421,119 @@ theorem fault_resume (me : Nat) (n : Node) (b : Block) (rest : List Block) (kind
           refine SameOutcome.refl me _ rest ?_
           simpa [applyStep, stepWal] using hms
 
+
+/-! ## no key is stored twice in a sane wallet; the committed registry survives every fault -/
+
+theorem nodup_map_of_inj {α β γ : Type} (f : α → β) (g : α → γ) (l : List α) (hf : (l.map f).Nodup)
+    (hinj : ∀ a ∈ l, ∀ b ∈ l, g a = g b → f a = f b) : (l.map g).Nodup := by
+  induction l with
+  | nil => simp
+  | cons x xs ih =>
+    simp only [List.map_cons, List.nodup_cons] at hf ⊢
+    refine ⟨?_, ih hf.2 (fun a ha b hb => hinj a (List.mem_cons_of_mem _ ha) b (List.mem_cons_of_mem _ hb))⟩
+    intro hmem
+    obtain ⟨y, hy, hgy⟩ := List.mem_map.1 hmem
+    have := hinj x List.mem_cons_self y (List.mem_cons_of_mem _ hy) hgy.symm
+    exact hf.1 (this ▸ List.mem_map_of_mem hy)
+
+theorem keysOf_nodup {w : Wal} (h : Sane w) : (keysOf w).Nodup := by
+  refine nodup_map_of_inj (·.1) (·.2) w.recs h.1.nodup ?_
+  intro a ha b hb hab
+  have h1 := h.1.idx a ha
+  have h2 := h.1.idx b hb
+  rw [hab, h2] at h1
+  exact (Option.some.inj h1).symm
+
+/-- with `SameOutcome` every key is stored equally often (once or not at all) on both sides -/
+theorem SameOutcome.count {x y : Node × Bool} (h : SameOutcome x y) (key : Nat) :
+    (keysOf x.1.wal).count key = (keysOf y.1.wal).count key := by
+  have c : ∀ (l : List Nat), l.Nodup → l.count key = if key ∈ l then 1 else 0 := by
+    intro l hl
+    induction l with
+    | nil => simp
+    | cons x xs ih =>
+      simp only [List.nodup_cons] at hl
+      rw [List.count_cons, ih hl.2]
+      by_cases hx : x = key
+      · subst hx; simp [hl.1]
+      · have : (x == key) = false := by simpa using hx
+        have hx' : ¬ key = x := fun e => hx e.symm
+        simp [this, hx']
+  rw [c _ (keysOf_nodup h.sane.1), c _ (keysOf_nodup h.sane.2)]
+  by_cases hm : key ∈ keysOf x.1.wal
+  · simp [hm, (h.keys key).1 hm]
+  · have : key ∉ keysOf y.1.wal := fun hy => hm ((h.keys key).2 hy)
+    simp [hm, this]
+
+theorem runBudget_db (n : Node) (st : List Step) (k : Nat) (hst : ∀ s ∈ st, s ≠ .commit) :
+    (runBudget n st k).1.reg.db = n.reg.db := by
+  induction st generalizing n k with
+  | nil => rfl
+  | cons s ss ih =>
+    have hs : (applyStep n s).reg.db = n.reg.db := by
+      have := hst s List.mem_cons_self
+      cases s <;> first | exact absurd rfl this | simp [applyStep, stepReg]
+    have hss : ∀ t ∈ ss, t ≠ .commit := fun t ht => hst t (List.mem_cons_of_mem _ ht)
+    simp only [runBudget]
+    split
+    · cases k with
+      | zero => rfl
+      | succ k0 => simp only []; rw [ih _ _ hss, hs]
+    · rw [ih _ _ hss, hs]
+
+theorem runMacroBudget_db (n : Node) (l : List Step) (k : Nat) (hl : ∀ s ∈ l, s.handler = true) :
+    (runMacroBudget n l k).1.reg.db = n.reg.db := by
+  induction l generalizing n k with
+  | nil => rfl
+  | cons s ss ih =>
+    simp only [runMacroBudget]
+    have h1 := runBudget_db n (expand n.wal s) k (expand_no_commit n.wal s (hl s List.mem_cons_self))
+    cases hb : runBudget n (expand n.wal s) k with
+    | mk n2 o =>
+      rw [hb] at h1
+      cases o with
+      | none => exact h1
+      | some k2 =>
+        simp only []
+        rw [ih _ _ (fun t ht => hl t (List.mem_cons_of_mem _ ht))]
+        exact h1
+
+/-- whatever the fault position (including the bad one): either the block's transaction was committed as a whole
+    (marker included) or the committed registry, and after the restart the whole registry state, is the one from
+    before the block -/
+theorem faultBlock_registry (me : Nat) (n : Node) (b : Block) (kind : FaultKind) (k : Nat)
+    (hk : kind ≠ .retry) (hB : Boundary n)
+    (hown : ∀ o ∈ n.reg.db.ops, o.pk = me → o.id = n.reg.self)
+    (hhas : n.reg.self ≠ 0 → ∃ o ∈ n.reg.db.ops, o.id = n.reg.self ∧ o.pk = me)
+    (hf : (faultBlock me n b kind k).2 = .faulted ∨ (faultBlock me n b kind k).2 = .faultedBad) :
+    (faultBlock me n b kind k).1.reg = n.reg := by
+  have hafter : ∀ x, afterFault me kind x = restart me x := by
+    intro x; cases kind <;> first | rfl | exact absurd rfl hk
+  simp only [faultBlock] at hf ⊢
+  by_cases hinf : inferior n b = true
+  · simp [hinf] at hf
+  · simp only [hinf, Bool.false_eq_true, ↓reduceIte] at hf ⊢
+    obtain ⟨e1, _, _⟩ := runEventsBudget_eq me b.number (beginTxn n) b.events k
+    have hdb : (runEventsBudget me b.number (beginTxn n) b.events k).1.reg.db = n.reg.db := by
+      rw [e1, runMacroBudget_db _ _ _ (eventsMacros_handler me b.number _ b.events)]; rfl
+    generalize runEventsBudget me b.number (beginTxn n) b.events k = res at hf hdb ⊢
+    obtain ⟨n1, c, p⟩ := res
+    simp only at hf hdb ⊢
+    cases c with
+    | clean => simp only [hafter]; exact restart_reg me n1 n hdb hB hown hhas
+    | bad => simp only [hafter]; exact restart_reg me n1 n hdb hB hown hhas
+    | done k1 =>
+      cases p with
+      | true => simp at hf
+      | false =>
+        simp only at hf ⊢
+        cases k1 with
+        | zero => simp only [runBudget, Step.isWrite, ↓reduceIte, hafter]; exact restart_reg me n1 n hdb hB hown hhas
+        | succ k2 =>
+          cases k2 with
+          | zero =>
+            simp only [runBudget, Step.isWrite, ↓reduceIte, hafter]
+            exact restart_reg me _ n (by simpa [applyStep, stepReg] using hdb) hB hown hhas
+          | succ k3 => simp [runBudget, Step.isWrite] at hf
+
 end Ssv.Registry
